@@ -1,3 +1,181 @@
 import Sheens.ES
+import Sheens.Proofs.Permanent
 
-/-! Property C18 — theorems (in progress). -/
+/-!
+# Property C18 — permanent bindings
+
+For all bindings and all action/guard *functions* (whatever they delete, overwrite or return).
+
+Bindings are association lists in the model (first hit wins on `lookup`, while `restore` writes the
+permanent pairs back one after the other, so the last one wins).  On lists with *duplicate keys* —
+which a Go map cannot have — the two disagree and the statements as first written are false
+(`permanent_preserved_full_false`, `permanent_after_step_full_false`,
+`permanent_after_step_nodup_false` below, each from a concrete witness).  The theorems therefore
+carry `NoDupKeys` hypotheses (`NoDupKeys` is defined in `Sheens/Proofs/Permanent.lean`: the keys are
+pairwise distinct): on the given bindings and, for a whole step, on the bindings the action returns
+(an `ActionF` is an arbitrary function into association lists, so it could return duplicates too).
+-/
+
+namespace Sheens.C18
+
+/-- the statement as first written (no duplicate-key hypothesis): false, see below -/
+def permanent_preserved_full : Prop :=
+  ∀ (a : ActionF) (bs b' : Bs) (em : List V) (k : String) (v : V),
+    (execWrap a (some bs)).exe = some (some b', em) →
+    isPermanent k = true → lookup k bs = some v → lookup k b' = some v
+
+/-- After any action or guard that completes and returns bindings, every binding whose name ends
+    in '!' that was present beforehand is present with its previous value.
+    (`hnd`: the given bindings have no duplicate keys — always so for a Go map.) -/
+theorem permanent_preserved (a : ActionF) (bs b' : Bs) (em : List V) (k : String) (v : V)
+    (hnd : NoDupKeys bs)
+    (hx : (execWrap a (some bs)).exe = some (some b', em))
+    (hk : isPermanent k = true) (hv : lookup k bs = some v) :
+    lookup k b' = some v := by
+  exact execWrap_keeps hk ⟨hnd, hv⟩ hx
+
+/-- witness: the bindings `[("k!", null), ("k!", true)]` and an action that returns `{}` -/
+theorem permanent_preserved_full_false : ¬ permanent_preserved_full := by
+  intro h
+  have := h (fun _ => { exe := some (some [], []), err := none })
+    [("k!", .null), ("k!", .bool true)] [("k!", .bool true)] [] "k!" .null rfl (by decide) rfl
+  revert this
+  simp [lookup]
+
+/-- A failing action leaves them in place: the error bindings extend the given ones. -/
+theorem permanent_after_action_error (bs : Bs) (e : String) (k : String) (v : V)
+    (hk : isPermanent k = true) (hv : lookup k bs = some v) :
+    lookup k (insertB "error" (.str e) (insertB "actionError" (.str e) bs)) = some v := by
+  rw [lookup_insertB_ne _ _ (perm_ne_error hk), lookup_insertB_ne _ _ (perm_ne_actionError hk)]
+  exact hv
+
+/-- the statement as first written: false on duplicate keys, see below -/
+def permanent_after_step_full : Prop :=
+  ∀ (s : Spec) (st : State) (pending : Option V) (bs : Bs) (sd : Stride)
+    (t : State) (k : String) (v : V),
+    st.bs = some bs →
+    (∀ n a, findNode st.node s.nodes = some n → n.action = some a →
+        (execWrap a st.bs).err = none → ∃ b' em, (execWrap a st.bs).exe = some (some b', em)) →
+    (step s st pending).stride = some sd → sd.to = some t →
+    isPermanent k = true → lookup k bs = some v →
+    ∃ tb, t.bs = some tb ∧ lookup k tb = some v
+
+/-- the statement with `NoDupKeys` on the given bindings only: still false, because the action may
+    return bindings with duplicate keys, which a following guard's `restore` then scrambles -/
+def permanent_after_step_nodup : Prop :=
+  ∀ (s : Spec) (st : State) (pending : Option V) (bs : Bs) (sd : Stride)
+    (t : State) (k : String) (v : V),
+    st.bs = some bs → NoDupKeys bs →
+    (∀ n a, findNode st.node s.nodes = some n → n.action = some a →
+        (execWrap a st.bs).err = none → ∃ b' em, (execWrap a st.bs).exe = some (some b', em)) →
+    (step s st pending).stride = some sd → sd.to = some t →
+    isPermanent k = true → lookup k bs = some v →
+    ∃ tb, t.bs = some tb ∧ lookup k tb = some v
+
+/-- One step: whenever the step ends in a state (success, action failure under every routing, the
+    "followed no branch" transition), every permanent binding of the given state is there with the
+    same value — provided the action, if any, returned bindings or failed (an action that completes
+    with `null` is outside the property), and the pattern matcher and guards only extend or restore
+    (guards are wrapped the same way).
+
+    Extra hypotheses with respect to `permanent_after_step_full`: `hnd` (the given bindings have no
+    duplicate keys) and, in `hnn`, `NoDupKeys b'` (neither have the bindings the action hands back;
+    by `execWrap_nodup` it is enough that the raw action's bindings have none). -/
+theorem permanent_after_step_partial (s : Spec) (st : State) (pending : Option V) (bs : Bs)
+    (sd : Stride) (t : State) (k : String) (v : V)
+    (hbs : st.bs = some bs) (hnd : NoDupKeys bs)
+    (hnn : ∀ n a, findNode st.node s.nodes = some n → n.action = some a →
+        (execWrap a st.bs).err = none →
+          ∃ b' em, (execWrap a st.bs).exe = some (some b', em) ∧ NoDupKeys b')
+    (hs : (step s st pending).stride = some sd) (ht : sd.to = some t)
+    (hk : isPermanent k = true) (hv : lookup k bs = some v) :
+    ∃ tb, t.bs = some tb ∧ lookup k tb = some v := by
+  have hc : Keeps k v bs := ⟨hnd, hv⟩
+  cases step_cases s st pending with
+  | nostride h => rw [h] at hs; cases hs
+  | noaction n hn ha h =>
+    rw [h, stepRest_noaction _ _ _ _ _ ha, hbs] at hs
+    cases hs
+    simp only at ht
+    cases hcons : (consider n.branches (some bs) pending).1 with
+    | none => rw [hcons] at ht; cases ht
+    | some t' =>
+      rw [hcons] at ht
+      cases ht
+      obtain ⟨tb, h1, h2⟩ := consider_keeps hk hc hcons
+      exact ⟨tb, by simp only [stateCopy, h1, copyB], h2⟩
+  | ok n a hn ha hm he h =>
+    obtain ⟨b', em, hx, hnd'⟩ := hnn n a hn ha he
+    have hc' : Keeps k v b' := ⟨hnd', execWrap_keeps hk hc (by rw [← hbs]; exact hx)⟩
+    rw [h, hx] at hs
+    exact stepRest_action_keeps ha hm hk hc' hs ht
+  | errBranches n a e hn ha hm he h =>
+    rw [h, hbs] at hs
+    exact stepRest_action_keeps ha hm hk (keeps_actErrBs hk hc e) hs ht
+  | errNode n a e hn ha hm he h =>
+    rw [h] at hs
+    cases hs
+    cases ht
+    exact ⟨_, rfl, by rw [lookup_actErrBs hk, hbs]; exact hv⟩
+
+/-- the property under its registered name (same statement as `permanent_after_step_partial`) -/
+theorem permanent_after_step (s : Spec) (st : State) (pending : Option V) (bs : Bs) (sd : Stride)
+    (t : State) (k : String) (v : V)
+    (hbs : st.bs = some bs) (hnd : NoDupKeys bs)
+    (hnn : ∀ n a, findNode st.node s.nodes = some n → n.action = some a →
+        (execWrap a st.bs).err = none →
+          ∃ b' em, (execWrap a st.bs).exe = some (some b', em) ∧ NoDupKeys b')
+    (hs : (step s st pending).stride = some sd) (ht : sd.to = some t)
+    (hk : isPermanent k = true) (hv : lookup k bs = some v) :
+    ∃ tb, t.bs = some tb ∧ lookup k tb = some v :=
+  permanent_after_step_partial s st pending bs sd t k v hbs hnd hnn hs ht hk hv
+
+/-! ## the witnesses -/
+
+/-- a guard that accepts and returns the bindings it was given -/
+def idGuard : ActionF := fun bs => { exe := some (bs, []), err := none }
+
+/-- bindings branching with one guarded branch (no pattern) to node `m`, optionally after an action -/
+def cexSpec (a : Option ActionF) : Spec :=
+  { name := "cex", compiled := true, actionErrorBranches := false, actionErrorNode := "",
+    nodes := [("n", { action := a, hasSource := false,
+                      branches := some { type := "bindings",
+                                         branches := [{ pattern := none, guard := some idGuard,
+                                                        target := "m" }] } })] }
+
+/-- witness 1: duplicate keys in the given bindings; the guard's `restore` makes the last one win -/
+theorem permanent_after_step_full_false : ¬ permanent_after_step_full := by
+  intro h
+  obtain ⟨tb, h1, h2⟩ := h (cexSpec none) { node := "n", bs := some [("k!", .null), ("k!", .bool true)] }
+    none [("k!", .null), ("k!", .bool true)]
+    { frm := { node := "n", bs := some [("k!", .null), ("k!", .bool true)] },
+      to := some { node := "m", bs := some [("k!", .bool true), ("k!", .bool true)] },
+      consumed := none, emitted := [] }
+    { node := "m", bs := some [("k!", .bool true), ("k!", .bool true)] } "k!" .null
+    rfl (by intro n a hn ha; cases hn; cases ha) rfl rfl (by decide) rfl
+  cases h1
+  revert h2
+  simp [lookup]
+
+/-- an action that returns bindings with a duplicate key -/
+def dupAction : ActionF :=
+  fun _ => { exe := some (some [("k!", .bool true), ("k!", .bool false)], []), err := none }
+
+/-- witness 2: the given bindings `{"k!": null}` are duplicate-free, the action returns a duplicate
+    key; `execWrap` restores the first occurrence, the guard's `execWrap` then writes both
+    "permanent" pairs back and the last one wins -/
+theorem permanent_after_step_nodup_false : ¬ permanent_after_step_nodup := by
+  intro h
+  obtain ⟨tb, h1, h2⟩ := h (cexSpec (some dupAction)) { node := "n", bs := some [("k!", .null)] }
+    none [("k!", .null)]
+    { frm := { node := "n", bs := some [("k!", .null)] },
+      to := some { node := "m", bs := some [("k!", .bool false), ("k!", .bool false)] },
+      consumed := none, emitted := [] }
+    { node := "m", bs := some [("k!", .bool false), ("k!", .bool false)] } "k!" .null
+    rfl (List.pairwise_singleton _ _)
+    (by intro n a hn ha _; cases hn; cases ha; exact ⟨_, _, rfl⟩) rfl rfl (by decide) rfl
+  cases h1
+  revert h2
+  simp [lookup]
+
+end Sheens.C18
